@@ -1187,3 +1187,24 @@ Proof.
   unfold ex_ops_br. cbn [straightline]. intros [_ [_ [_ [_ [[opc [rest [Hd [Hs _]]]] _]]]]].
   injection Hd as <- _. destruct Hs as [Hs|[[_ Hs]|[_ Hs]]]; discriminate Hs.
 Qed.
+
+(* ... and one with a block move: MVN #$7E,#$7F; NOP at $8000.  With C = 2 the CPU fetches $8000 three times, then $8003 *)
+Definition ex_adm (op : Z) : bool := cond_branch op || move_op op.
+Definition ex_ops_mv : list op :=
+  [ OIns E3 [84; 126; 127] nolbl TNone Emitter.GNone;    (* MVN *)
+    OIns E1 [234] nolbl TNone Emitter.GNone ].           (* NOP *)
+Example ex_straightline_mv : straightline ex_adm ex_ops_mv ex_e0.
+Proof.
+  unfold ex_ops_mv. cbn [straightline]. repeat split; try reflexivity; try ex_ins.
+Qed.
+Example ex_movs : movs ex_ops_mv = [true; false] /\ starts ex_ops_mv ex_e0 = [32768; 32771].
+Proof. split; reflexivity. Qed.
+Example ex_expand : expand [32768; 32771] [3%nat; 1%nat] = [32768; 32768; 32768; 32771] /\
+                    dedup [32768; 32768; 32768; 32771] = [32768; 32771].
+Proof. split; reflexivity. Qed.
+(* a block move is not a program of the exact theorem *)
+Example ex_move_excluded : ~ straightline cond_branch ex_ops_mv ex_e0.
+Proof.
+  unfold ex_ops_mv. cbn [straightline]. intros [[opc [rest [Hd [Hs _]]]] _].
+  injection Hd as <- _. destruct Hs as [Hs|[[Hs _]|[_ Hs]]]; discriminate Hs.
+Qed.
